@@ -50,6 +50,9 @@ func verJSON(s string) any {
 	return map[string]any{"major": v.Major(), "minor": v.Minor(), "patch": v.Patch(), "pre": pre}
 }
 
+// idxBase: where the chart URLs of generated index files point (the resolve step serves archives there)
+var idxBase = "http://example.com"
+
 func indexYAML(es []idxEntry) string {
 	var b strings.Builder
 	b.WriteString("apiVersion: v1\nentries:\n  foo:\n")
@@ -72,7 +75,7 @@ func indexYAML(es []idxEntry) string {
 		}
 		w(fmt.Sprintf("version: %q", e.version))
 		if !e.noURL {
-			w(fmt.Sprintf("urls: [\"http://example.com/foo-%s.tgz\"]", strings.ReplaceAll(e.version, "\"", "")))
+			w(fmt.Sprintf("urls: [\"%s/foo-%s.tgz\"]", idxBase, strings.ReplaceAll(e.version, "\"", "")))
 		}
 	}
 	return b.String()
@@ -88,9 +91,10 @@ func loadIdx(dir, content string) (idx *repo.IndexFile, err error, p string) {
 func corrIndex(seed uint64, n int, tier string, out string, replay string) {
 	m := StartModel()
 	defer m.Close()
-	rep := NewReport("C18", "index", seed, "case = index file for one chart with 0-8 entries in random order drawn from a pool of versions (pre-releases, build metadata, leading v, partial versions, invalid strings), null entries, name-less and URL-less entries, then 3 queries (empty, exact strings, constraint expressions, invalid constraints); LoadIndexFile + IndexFile.Get + GetTagMatchingVersionOrConstraint compared with the model; the library's verdicts (parse, constraint check, validity) are handed to the model; Lean precedence is compared with Masterminds Compare on every pair; non-trivial = at least 2 entries; distinct = hash of file and queries")
+	rep := NewReport("C18", "index", seed, "case = index file for one chart with 0-8 entries in random order drawn from a pool of versions (pre-releases, build metadata, leading v, partial versions, invalid strings), null entries, name-less and URL-less entries, then 3 queries (empty, exact strings, constraint expressions, invalid constraints); LoadIndexFile + IndexFile.Get + GetTagMatchingVersionOrConstraint compared with the model; every third case the index is the cached index of a repository and downloader.Manager.Update resolves a dependency range against it (internal/resolver), the version written to Chart.lock is compared with the model's resolvePick; the library's verdicts (parse, constraint check, validity) are handed to the model; Lean precedence is compared with Masterminds Compare on every pair; non-trivial = at least 2 entries; distinct = hash of file and queries")
 	dir, _ := os.MkdirTemp("", "corr-index")
 	defer os.RemoveAll(dir)
+	resolveServer() // chart URLs of the generated index files point at a local server (dependency resolution downloads them)
 	// precedence: Lean key order vs library, all pairs of the pool
 	pool := append([]string{}, verPool...)
 	for i := range pool {
@@ -223,6 +227,10 @@ func indexCase(m *Model, rep *Report, r *Rng, dir string, es []idxEntry, seed ui
 				rep.Issue(Issue{Kind: "monitor", Fingerprint: "C18:not-sorted", What: "loaded versions are not sorted newest first", Case: cs, Impl: loaded, Seed: seed, Index: idx})
 			}
 		}
+	}
+	// dependency resolution through the downloader's Manager (every third case)
+	if idx%3 == 0 && !hasNull {
+		resolveCase(m, rep, r, dir, es, loaded, content, seed, idx)
 	}
 	// queries
 	for q := 0; q < 3; q++ {
